@@ -6,6 +6,11 @@ SPEC = {
         "AM.Snapshot.sil_decode_encode",
         "AM.CrashFS.crash_any_point_loads_old_or_new", "AM.CrashFS.crash_history", "AM.CrashFS.crash_old_or_new",
         "AM.CrashFS.snapshot_preserves",
+        "AM.CrashFS.HInv.crashFS", "AM.CrashFS.HInv_mid", "AM.CrashFS.HInv_attempt_point", "AM.CrashFS.runAttempt_inv",
+        "AM.CrashFS.crashed_attempts_history", "AM.CrashFS.crashed_attempts_history_trunc", "AM.CrashFS.histOKb_iff",
+        "AM.CrashFS.never_refuses_own_file_partial_4MiB",
+        "AM.CrashFS.stale_temp_without_trunc_mixed", "AM.CrashFS.stale_temp_with_trunc_clean", "AM.CrashFS.stale_temp_fresh_name_clean",
+        "AM.CrashFS.history_never_refuses_own_file_partial", "AM.CrashFS.oversize_record_refused_any",
         "AM.CrashFS.rename_before_fsync_torn", "AM.CrashFS.no_fsync_torn", "AM.CrashFS.in_place_torn",
         "AM.CrashFS.never_refuses_own_file_partial", "AM.CrashFS.never_refuses_first_snapshot",
         "AM.CrashFS.oversize_record_refused", "AM.CrashFS.restart_keeps_muting_and_dedup",
@@ -15,17 +20,30 @@ SPEC = {
     ],
     "rule": "real nflog.Log and silence.Silences: (a) generated stores (0..200 records quick, ..5000 thorough; shapes mix/min/multi/big, "
             "contents through Merge and through the write APIs Log/Set) -> Snapshot or real Maintenance -> load through SnapshotReader/SnapshotFile "
-            "-> compare query dumps; (b) the loader on every prefix and a single-byte corruption at every position of small real snapshots, on "
+            "-> compare query dumps; (a') one record of a chosen encoded size per case, every run: 60 KiB, 70 KiB, 1 MiB, just under and EXACTLY 4 MiB "
+            "(protodelim's default limit) plus log-uniform sizes 32 KiB..4 MiB, inflated through each field in turn (nflog: firing/resolved alert hashes, "
+            "receiver data, group key; silence: many matchers, many matcher sets, annotation, comment), exact size as a peer's state through Merge or "
+            "through Log/Set; a refusal of such a record by the loader or by Merge is class own-file-refused / own-record-refused-by-merge, only a record "
+            "> 4194304 bytes is the open finding F9 (class oversize-record-over-4MiB, computed by the driver from the written record lengths); (b) the loader on every prefix and a single-byte corruption at every position of small real snapshots, on "
             "hand-made files (legacy matcher list + comment list, bad varints, oversize sizes) and random bytes, result compared with the model's "
-            "decodeState; (c) strace of a child running the real Maintenance: extracted create/write/fsync/close/rename order vs the model's "
-            "sequence; (d) every crash state (i ops, j persisted dir ops, m unsynced bytes; both FS models) of that order materialised as files "
-            "and loaded by the real New(Options{SnapshotFile}). A case is non-trivial when it hits a tagged branch; distinct = distinct hash of its lines",
+            "decodeState; (c) strace of a child running the real Maintenance, both stores, shutdown path (closed stop channel) and periodic path "
+            "(ticker snapshot, then shutdown snapshot): every attempt's open flags (O_TRUNC/O_EXCL/O_APPEND), temp path (tokens T1,T2.. by distinct real path), "
+            "write/fsync/close/rename order vs the model's sequence for that name and flag, every token accounted for; (d) every crash state (i ops, j persisted dir ops, m unsynced bytes; both FS models) of that order materialised as files "
+            "and loaded by the real New(Options{SnapshotFile}); (e) histories: attempt 1 (larger state, traced) crashes at every (i,j) and selected m, "
+            "its crash state is materialised WITH the temp file under the name the real code used; a second process's attempt is traced over such a "
+            "directory (name + flags -> the discipline HistOK is evaluated by histOKb on every crash point of attempt 1), then the REAL Maintenance "
+            "snapshots a smaller state (0-1 records) in-process over each materialised crash state, the target is read back (must be exactly the new "
+            "snapshot, compared with the model's runHist) and loaded by the real loader. A case is non-trivial when it hits a tagged branch; distinct = distinct hash of its lines",
     "assumptions": [
         "protobuf field codec round-trips (decodeMsg (encodeMsg m) = some m): the harness uses proto.Unmarshal as the oracle for payloads",
         "file system: fsync makes the file's data durable on return; rename is atomic; directory operations persist in order (weak) or on return (strong); "
         "truncation by open(O_TRUNC) is immediate; no hard links, one open descriptor per snapshot run",
-        "the temp name chosen by openReplace is fresh (rand.Int63 suffix) and differs from the target",
-        "never_refuses_own_file is partial: every record <= protodelim MaxSize 4 MiB (open finding F9, class=oversize-record)",
+        "temp-file discipline (HistOK, checked on the traced names/flags): temp name != target, and the temp file is empty when first written: "
+        "the open truncates (os.Create = O_TRUNC, the code as it is; then even one fixed name is safe) OR the name does not exist at that moment "
+        "(rand.Int63 suffix: fresh except with probability 2^-63, not relied upon)",
+        "never_refuses_own_file is partial: every record <= protodelim MaxSize 4 MiB = 4194304 bytes (open finding F9, class=oversize-record-over-4MiB); "
+        "records of exactly 4194304 bytes are generated and must load",
+        "an in-place write into the synced part of an inode makes it dirty from the write position (min synced off): only reachable without O_TRUNC",
         "totality on arbitrary bytes ('never panics') is a test (prefix/corruption/random stream with recover), not a theorem",
     ],
 }
